@@ -203,6 +203,31 @@ def unroll_table_loops(tree: ast.Module) -> int:
                 fn = owner.get(id(node))
                 if fn is not None and (id(fn), it.id) in named_tables:
                     it = named_tables[(id(fn), it.id)]
+            # `for m in (0, 2): BODY` over a few integer literals: BODY with the literal in place of m
+            if (
+                isinstance(it, (ast.Tuple, ast.List))
+                and 1 <= len(it.elts) <= 4
+                and all(isinstance(e, ast.Constant) and isinstance(e.value, int) and not isinstance(e.value, bool) for e in it.elts)
+                and isinstance(tg, ast.Name)
+                and not node.orelse
+                and not any(isinstance(x, (ast.Break, ast.Continue)) for b in node.body for x in ast.walk(b))
+                and not any(isinstance(x, ast.Name) and x.id == tg.id and isinstance(x.ctx, (ast.Store, ast.Del)) for b in node.body for x in ast.walk(b))
+                and not any(isinstance(x, (ast.FunctionDef, ast.Lambda)) for b in node.body for x in ast.walk(b))
+            ):
+                out = []
+                for e in it.elts:
+                    class S(ast.NodeTransformer):
+                        def visit_Name(self, n, _e=e):
+                            if n.id == tg.id and isinstance(n.ctx, ast.Load):
+                                return ast.copy_location(ast.Constant(_e.value), n)
+                            return n
+
+                    out.extend(S().visit(copy.deepcopy(b)) for b in node.body)
+                keep = ast.Assign(targets=[ast.Name(id=tg.id, ctx=ast.Store())], value=ast.Constant(it.elts[-1].value), type_comment=None)
+                ast.copy_location(keep, node)
+                out.append(keep)  # the loop variable keeps its last value
+                count += 1
+                return out
             if (
                 isinstance(it, (ast.Tuple, ast.List))
                 and 1 <= len(it.elts) <= 8
